@@ -156,13 +156,24 @@ type c07Step struct {
 	XR     *c07Obj    `json:"xr"`
 }
 
+// c07ProbeObs: what one run of the managed-fields upgrader against a probe object did
+// (op upgradeProbe): the managers the object lists afterwards, the number of API calls,
+// the error class returned. Diffed against Xp.C07.upgradeRun (Model/C07Upgrade.lean).
+type c07ProbeObs struct {
+	Managers []string `json:"managers"`
+	Calls    int      `json:"calls"`
+	Err      string   `json:"err"`
+}
+
 type c07PeerObs struct {
-	Steps []c07Step `json:"steps"`
+	Steps  []c07Step     `json:"steps"`
+	Probes []c07ProbeObs `json:"probes"`
 }
 
 type c07Obs struct {
-	Steps []c07Step    `json:"steps"`
-	Peers []c07PeerObs `json:"peers"`
+	Steps  []c07Step     `json:"steps"`
+	Probes []c07ProbeObs `json:"probes"`
+	Peers  []c07PeerObs  `json:"peers"`
 }
 
 // ---------------------------------------------------------------- projection
@@ -390,12 +401,13 @@ type c07Snap struct {
 
 // c07Pair is the run state of one claim/XR pair of a scenario.
 type c07Pair struct {
-	ns    string
-	name  string
-	ops   []c07Op
-	next  int
-	steps []c07Step
-	snaps []c07Snap // snaps[0]: as seeded; snaps[i]: after operation i
+	ns     string
+	name   string
+	ops    []c07Op
+	next   int
+	steps  []c07Step
+	probes []c07ProbeObs
+	snaps  []c07Snap // snaps[0]: as seeded; snaps[i]: after operation i
 }
 
 func c07NSOf(ns string) string {
@@ -457,14 +469,20 @@ func c07Run(s c07Scn) (c07Obs, []Mon, c07Info) {
 			mons = append(mons, p.runOp(s, pr, &info)...)
 		}
 	}
-	obs := c07Obs{Steps: pairs[0].steps, Peers: []c07PeerObs{}}
+	obs := c07Obs{Steps: pairs[0].steps, Probes: pairs[0].probes, Peers: []c07PeerObs{}}
 	if obs.Steps == nil {
 		obs.Steps = []c07Step{}
 	}
+	if obs.Probes == nil {
+		obs.Probes = []c07ProbeObs{}
+	}
 	for _, pr := range pairs[1:] {
-		po := c07PeerObs{Steps: pr.steps}
+		po := c07PeerObs{Steps: pr.steps, Probes: pr.probes}
 		if po.Steps == nil {
 			po.Steps = []c07Step{}
+		}
+		if po.Probes == nil {
+			po.Probes = []c07ProbeObs{}
 		}
 		obs.Peers = append(obs.Peers, po)
 	}
@@ -533,7 +551,8 @@ func (p *c07Proc) runOp(s c07Scn, pr *c07Pair, info *c07Info) []Mon {
 		if err := st.Get(ctx, types.NamespacedName{Name: n}, xr); err != nil {
 			return nil
 		}
-		mons = append(mons, p.upgrade(pr, op, xr)...)
+		um, _ := p.upgrade(pr, op, xr)
+		mons = append(mons, um...)
 		after := peekXR(n)
 		if mustJSON(before) != mustJSON(after) {
 			mons = append(mons, Mon{Sig: "C07:upgrade-changed-xr", Why: "managed fields upgrade changed XR data: " + mustJSON(before) + " -> " + mustJSON(after)})
